@@ -1017,7 +1017,7 @@ def offset(dt):
     return dt.utcoffset() or ZERO_TIMESPAN
 
 
-@specs.yaql_property(DATETIME_TYPE)
+@specs.yaql_property(yaqltypes.DateTime())
 def timestamp(dt):
     """:yaql:property timestamp
 
